@@ -79,11 +79,21 @@ class RegexRule(FactRule):
             if f and f in self.pending(ts):
                 self.violate(ctx, 'uncompiled-use', '%s(dl->%s) reachable with a pattern that was allocated but not '
                              'compiled' % (n, f), inst='use:' + f)
+            if f and ('rx', f, 'released') in ts:
+                self.violate(ctx, 'released-use', '%s(dl->%s) reachable after regfree(dl->%s) on the same path' % (n, f, f),
+                             inst='use:' + f)
+            if f and n == 'regfree':
+                ts = ts | frozenset([('rx', f, 'released')])
         return ts
 
     def on_return(self, ctx, node, mask, ts):
         if ctx.fn is self.fn:
             self.exits += 1
+            for f in sorted(x[1] for x in ts if isinstance(x, tuple) and x[0] == 'rx' and x[2] == 'released'):
+                self.violate(ctx, 'released-exit', 'exit (return %s) leaves dl->%s pointing to a pattern that was '
+                             'released with regfree() (the field is neither freed and set to NULL nor compiled again): the '
+                             'next callback sees a non-NULL field and calls regexec() on it' % (
+                                 show(node.e) if node.e is not None else '', f), inst='exit:' + f, node=node)
             for f in sorted(self.pending(ts)):
                 self.violate(ctx, 'uncompiled-exit', 'exit (return %s) leaves dl->%s allocated but not compiled: '
                              'zck_dl_reset()/zck_dl_free() regfree() it and the next callback may regexec() it' % (
@@ -233,7 +243,7 @@ def run(ctx):
                     writers.add(fn.qname)
         users = set()
         for fn in prog.lib_funcs():
-            if calls_of(fn, ('regexec',)):
+            if calls_of(fn, ('regexec', 'regfree')):
                 users.add(fn.qname)
         ck.min_instances('functions allocating a regex field', len(writers), 2)
         total_exits = 0
@@ -363,6 +373,10 @@ CLAIM = {
 }
 
 MUTANTS = [
+    {'id': 'm17r', 'desc': 'patterns released but left in the fields', 'file': 'src/lib/dl/dl.c',
+     'old': """        regfree(dl->dl_regex);
+        free(dl->dl_regex);
+        dl->dl_regex = NULL;""", 'new': """        regfree(dl->dl_regex);""", 'expect': 'R6.regex'},
     {'id': 'm17g', 'desc': 'first range group made optional in the part pattern and parsed with strtoull at an unchecked '
                            'sub-match offset', 'file': 'src/lib/dl/multipart.c', 'old': '', 'new': '',
      'edits': [('src/lib/dl/multipart.c', """        size_t rstart = 0;
